@@ -32,7 +32,11 @@ def main(argv=None):
         if args.replay:
             with open(args.replay) as f:
                 body = json.load(f)
-            bad = mod.replay(body['case'])
+            if isinstance(body.get('case'), dict) and body['case'].get('kind') == 'reentrancy':
+                from . import conc
+                bad = conc.replay(body['case'])
+            else:
+                bad = mod.replay(body['case'])
             if bad:
                 print('VIOLATION property=%s replay=%s' % (pid, args.replay))
                 print('  ' + str(bad))
